@@ -390,6 +390,9 @@ func GenCalmDoc(t *rapid.T) Doc {
 		body.WriteString(calmContainer(t, 1))
 	}
 	d.HasStyle = true
+	if rapid.IntRange(0, 3).Draw(t, "firstletter") == 0 {
+		page += rapid.SampledFrom([]string{"p::first-letter{color:red}", "p::first-letter{font-size:2em}", "p::first-letter{float:left;font-size:2em}", "div::first-letter{font-weight:bold}"}).Draw(t, "flrule")
+	}
 	d.HTML = "<!DOCTYPE html><html><head><style>" + page + "</style></head><body>" + body.String() + "</body></html>"
 	d.Engine = rapid.SampledFrom([]string{"pango", "pango", "gotext"}).Draw(t, "engine")
 	d.Zoom = 1
